@@ -124,8 +124,8 @@ class C09(Prop):
                    'package totals are compared with the sums over the resources recorded in the same written descriptor']
     REAL_VS_STUB = {'real': ['dataflows dumpers, csv/json writers, zipfile, the file system'], 'stub': ['ambient environment (TZ, umask, cwd, tempdir) set per dump']}
     PROBES = ['zip-target', 'json-format', 'counters-renamed', 'counters-dotted', 'counter-disabled', 'filehash-in-path', 'empty-resource', 'multibyte-text', 'compact-descriptor', 'dumper-drops-invalid-rows', 're-dump-of-a-loaded-package']
-    TIERS = {'quick': dict(runs=700, wall=100, run_wall=120),
-             'thorough': dict(runs=20000, wall=1700, run_wall=300)}
+    TIERS = {'quick': dict(runs=700, wall=100, run_wall=300),
+             'thorough': dict(runs=20000, wall=1700, run_wall=600)}
     SHRINK_FROZEN = ('fields',)
     SHRINK_OPTIONAL = ('counters', 'add_filehash_to_path', 'pretty_descriptor')
 
